@@ -140,6 +140,19 @@ def rule_enc(ctx):
             tail_ok = False
     ctx.ob("C06.ENC", wr, f"on each of the {n_paths} encoder paths the last line written is code+' '+tail (exactly once)", tail_ok and n_paths >= 2,
            "the tail of the reply is not written last as code+' '+tail on every path", construct="write_response:tail")
+    # the sequence that is unpacked is the caller's `lines`, passed through wrap_with_container only (no split/join/strip/splitlines of the texts)
+    lines_p = params[3] if len(params) > 3 else "lines"
+    for n in walk_no_nested(wr):
+        tg = [t for t in assign_targets(n) if isinstance(t, ast.Name) and t.id == lines_p] if isinstance(n, (ast.Assign, ast.AugAssign)) else []
+        if tg:
+            v = n.value
+            ok = isinstance(v, ast.Call) and isinstance(v.func, ast.Name) and v.func.id in ("wrap_with_container", "list", "tuple") and [src(a) for a in v.args] == [lines_p]
+            ctx.ob("C06.ENC", n, f"`{src(n)[:60]}` only wraps the reply lines into a container", ok,
+                   f"the encoder rewrites the reply lines with `{src(v)[:60]}` before framing them: a line text containing a character this operation treats specially "
+                   "(e.g. U+2028 for splitlines) is split or altered, so what is decoded differs from what was sent", construct="write_response:lines rewritten")
+    for n in unpacks:
+        ctx.ob("C06.ENC", n, "the framing unpacks the (wrapped) `lines` parameter itself", isinstance(n.value, ast.Name) and n.value.id == lines_p,
+               f"the framing unpacks `{src(n.value)[:40]}`, not the reply lines", construct="write_response:unpack source")
     # write_line appends exactly one END_OF_LINE and encodes with the server encoding
     wl = p.method("Server", "write_line")
     enc = [c for c in walk_no_nested(wl) if isinstance(c, ast.Call) and is_method_call(c, "encode")]
